@@ -12,6 +12,10 @@ rc_bin("c17_race_tsan", ["harness/c17_race.cc"], lib=True, san="tsan")
 # Thorough tier only: the same harness and a second sanitizer build of the SDK compiled with
 # -DOPENTELEMETRY_ABI_VERSION_NO=2, which adds the end-to-end synchronous-gauge target.
 rc_bin("c17_rc_abi2", ["harness/c17_observables_gauges.cc"], lib=True, abi=2)
+# ASan without quarantine (see driver/propdefs/c13.py): a freed block is handed out again at once
+NOQUARANTINE = dict(ASAN_OPTIONS="detect_leaks=1:abort_on_error=0:allocator_may_return_null=1:"
+                    "detect_stack_use_after_return=1:symbolize=1:handle_abort=0:malloc_context_size=6:exitcode=99:"
+                    "strict_string_checks=1:quarantine_size_mb=0:thread_local_quarantine_size_kb=0")
 PROPS["C17"] = dict(
     level_text="Stateful model-based property tests (rapidcheck, ASan/UBSan): generated histories of AddCallback / "
                "RemoveCallback (also of near-miss triples that are not registered) / instrument destruction and creation "
@@ -94,6 +98,11 @@ PROPS["C17"] = dict(
         run("concurrent-collect", "c17_race", "obs_concurrent_collect", "rc", dict(procs=2, cases=80), dict(procs=4, cases=2000), deterministic=False),
         run("concurrent-collect-tsan", "c17_race_tsan", "obs_concurrent_collect", "rc", dict(procs=2, cases=80), dict(procs=4, cases=2000), deterministic=False, replay_bin="c17_race_tsan"),
         run("observables", "c17_rc", "obs_model", "rc", dict(procs=10, cases=12000), dict(procs=16, cases=120000)),
+        # the same histories with ASan's quarantine switched off: a destroyed instrument's address is handed out again by
+        # the next allocation of its size class, so "instrument A destroyed, instrument B created" puts B at A's address
+        # and anything the registry keys on an instrument address goes stale (seeded C17-m11)
+        run("observables-reuse", "c17_rc", "obs_model", "rc", dict(procs=3, cases=12000), dict(procs=4, cases=60000),
+            env=NOQUARANTINE),
         run("sync-gauge-storage", "c17_rc", "sync_gauge_storage", "rc", dict(procs=4, cases=15000),
             dict(procs=8, cases=120000)),
         run("sync-gauge-e2e-abi2", "c17_rc_abi2", "sync_gauge_e2e", "rc", None, dict(procs=8, cases=100000)),
